@@ -373,3 +373,28 @@ Proof.
   destruct (ghash_step_poly H X (firstn 16 d) HH HX) as [Hp Hok].
   rewrite <- Hp. apply IH. exact Hok.
 Qed.
+
+(* ---- gf128_mul_by_2 = multiplication by x; gf128_set_one is the unit of the product ---- *)
+Theorem gf128_mul_by_2_poly a : L64 (fst a) -> L64 (snd a) ->
+  poly (gf128_mul_by_2 a) = xtime (poly a) /\ L64 (fst (gf128_mul_by_2 a)) /\ L64 (snd (gf128_mul_by_2 a)).
+Proof.
+  destruct a as [a0 a1]. cbn [fst snd]. intros H0 H1. unfold gf128_mul_by_2.
+  assert (H87 : L64 135) by (unfold L64; reflexivity).
+  assert (Htop : N.testbit (poly (a0, a1)) 127 = N.testbit a1 63) by (rewrite poly_bit by exact H0; reflexivity).
+  unfold xtime. rewrite Htop, <- shift_limbs by assumption.
+  destruct (N.testbit a1 63); cbn [fst snd].
+  - split; [apply poly_xor_low; [apply w64_L64|exact H87]|]. split; [apply lxor_L64; [apply w64_L64|exact H87]|apply w64_L64].
+  - split; [reflexivity|]. split; apply w64_L64.
+Qed.
+
+Lemma psum_one n a : psum n a 1 = match n with O => 0 | S _ => a end.
+Proof.
+  induction n as [|n IH]; [reflexivity|]. cbn [psum]. rewrite IH. unfold term.
+  destruct n as [|n].
+  - cbn. reflexivity.
+  - replace (N.testbit 1 (N.of_nat (S n))) with false.
+    + apply N.lxor_0_r.
+    + symmetry. change 1 with (N.ones 1). apply N.ones_spec_high. lia.
+Qed.
+Theorem gf_mul_horner_one a : gf_mul_horner a (poly gf_one) = a.
+Proof. unfold gf_mul_horner. rewrite horner_psum, xt_0, N.lxor_0_l. change (poly gf_one) with 1. apply psum_one. Qed.
